@@ -59,14 +59,12 @@ func genC03(x *Ctx) *c03Scen {
 	if maxSvc > len(roots) {
 		maxSvc = len(roots)
 	}
-	nSvc := tp.Range(1, maxSvc)
 	perm := tp.Perm(len(roots))
 	rid := 0
-	for i := 0; i < nSvc; i++ {
+	tp.Repeat(1, maxSvc, 650, func(i int) {
 		sp := SvcSpec{ID: i, Root: roots[perm[i]], Dynamic: true}
-		n := tp.Range(1, maxRoutes)
 		seen := map[string]bool{}
-		for k := 0; k < n; k++ {
+		tp.Repeat(1, maxRoutes, 700, func(int) {
 			depth := tp.Range(0, 3)
 			var segs []string
 			for d := 0; d < depth; d++ {
@@ -86,7 +84,7 @@ func genC03(x *Ctx) *c03Scen {
 			m := []string{"GET", "POST"}[tp.G(2)]
 			key := m + " " + c03Shape(FullPath(sp.Root, path))
 			if seen[key] {
-				continue // same method and same template up to variable names: excluded by the statement
+				return // same method and same template up to variable names: excluded by the statement
 			}
 			seen[key] = true
 			rid++
@@ -98,9 +96,9 @@ func genC03(x *Ctx) *c03Scen {
 				r.Produces = []string{"application/xml"}
 			}
 			sp.Routes = append(sp.Routes, r)
-		}
+		})
 		sc.Svcs = append(sc.Svcs, sp)
-	}
+	})
 	for _, sp := range sc.Svcs {
 		sc.RouteOrd = append(sc.RouteOrd, tp.Perm(len(sp.Routes)))
 		sc.AddPos = append(sc.AddPos, tp.G(len(sp.Routes)+1))
